@@ -1,7 +1,8 @@
 SPECIFICATION Spec
 CONSTANTS Kind = "Inverse"
- Sizes = {1, 2, 3, 4, 5, 6, 7, 8, 9, 16, 17, 32, 33}
+ Sizes = {1, 2, 3, 4, 5, 6, 7, 8, 9, 16, 17, 32, 33, 65}
  WideForms = 0
+ BigLean = 1
 INVARIANT AdmissibleCases
 INVARIANT ConstructionRestores
 INVARIANT PermAlgebra
